@@ -148,6 +148,10 @@ var c19Components = []struct {
 	{"[D1]", func(c civil) string { return fmt.Sprint(c.D) }},
 	{"[D01]", func(c civil) string { return fmt.Sprintf("%02d", c.D) }},
 	{"[D1o]", func(c civil) string { return ordinal(c.D) }},
+	{"[d1o]", func(c civil) string { return ordinal(c.Doy) }},
+	{"[Y1o]", func(c civil) string { return ordinal(c.Y) }},
+	{"[m1o]", func(c civil) string { return ordinal(c.Mi) }},
+	{"[W1o]", func(c civil) string { return ordinal(c.IsoW) }},
 	{"[d]", func(c civil) string { return fmt.Sprint(c.Doy) }},
 	{"[d001]", func(c civil) string { return fmt.Sprintf("%03d", c.Doy) }},
 	{"[FNn]", func(c civil) string { return dayNames[c.Wd] }},
